@@ -523,4 +523,4 @@ def _programs(draw):
 
 
 def subs(tier):
-    return [Generated("backrefs", check, strategy=_programs(), quick=2000, thorough=100000)]
+    return [Generated("backrefs", check, strategy=_programs(), quick=1200, thorough=100000)]
